@@ -116,7 +116,7 @@ template <Kind K, typename T, typename M>
         auto const s        = m.strides();
         for (std::size_t r = 0; r < R; ++r) { o.strides_array[r] = static_cast<ll>(s[r]); }
     }
-    o.phase         = "is_*()";
+    o.phase         = "is_unique()/is_strided()";
     o.is_unique     = m.is_unique();
     o.is_strided    = m.is_strided();
     o.always_unique = M::is_always_unique();
@@ -131,7 +131,7 @@ template <Kind K, typename T, typename M>
         M const copy(m);
         o.eq_same = (m == copy) && (copy == m);
     }
-    o.phase = "done";
+    o.phase = "construction";
 }
 
 struct Expect {
@@ -145,8 +145,9 @@ struct Expect {
 void verify_map(Ctx& c, MapObs const& o, Indices const& ix, Expect const& x)
 {
     std::size_t const R = x.ext.size();
-    c.eq("extents()", show(std::vector<ll>(o.ext, o.ext + R)), show(x.ext));
-    if (o.has_span) { c.eq("required_span_size()", o.span, x.span); }
+    // the constructor decides the extents; with wrong extents every other observer differs as a consequence
+    if (!c.eq("extents()", show(std::vector<ll>(o.ext, o.ext + R)), show(x.ext))) { return; }
+    if (o.has_span) { c.eq_o("required_span_size()", o.span, x.span); }
     std::vector<unsigned char> hit(static_cast<std::size_t>(x.span), 0);
     std::size_t bad = 0;
     for (std::size_t k = 0; k < ix.n; ++k) {
@@ -157,26 +158,23 @@ void verify_map(Ctx& c, MapObs const& o, Indices const& ix, Expect const& x)
         if (got != ref || got < 0 || got >= x.span) {
             if (bad++ == 0) {
                 std::vector<ll> const idx(ix.flat.begin() + static_cast<std::ptrdiff_t>(k * R), ix.flat.begin() + static_cast<std::ptrdiff_t>((k + 1) * R));
-                c.r.violation("C19", c.subject, c.cls, c.kase,
-                    cat("operator()", show(idx), ": tetl=", got, " reference=", ref, " (required span size ", x.span, ")"));
+                c.fail_o("operator()", cat("index ", show(idx), ": tetl=", got, " reference=", ref, " (required span size ", x.span, ")"));
             }
             continue;
         }
-        if (hit[static_cast<std::size_t>(got)]++) {
-            c.r.violation("C19", c.subject, c.cls, c.kase, cat("mapping is not injective: offset ", got, " produced twice"));
-        }
+        if (hit[static_cast<std::size_t>(got)]++) { c.fail_o("operator()", cat("mapping is not injective: offset ", got, " produced twice")); }
     }
-    if (x.exhaustive && bad == 0) { c.eq("number of distinct offsets (exhaustive layout)", ix.n, static_cast<std::size_t>(x.span)); }
-    if (o.has_stride) { c.eq("stride(r) for all r", show(std::vector<ll>(o.stride, o.stride + R)), show(x.strides)); }
-    if (o.has_strides_array) { c.eq("strides()", show(std::vector<ll>(o.strides_array, o.strides_array + R)), show(x.strides)); }
-    c.eq("is_unique()", o.is_unique, 1);
-    c.eq("is_strided()", o.is_strided, 1);
-    c.eq("is_always_unique()", o.always_unique, 1);
-    c.eq("is_always_strided()", o.always_strided, 1);
-    if (o.is_exhaustive != -1) { c.eq("is_exhaustive()", o.is_exhaustive, 1); }
-    if (o.always_exhaustive != -1) { c.eq("is_always_exhaustive()", o.always_exhaustive, x.always_exhaustive); }
-    if (o.eq_same != -1) { c.eq("operator== with a copy", o.eq_same, 1); }
-    if (o.eq_dext != -1) { c.eq("operator== with the mapping it was made from / an equal mapping over dextents", o.eq_dext, 1); }
+    if (x.exhaustive && bad == 0) { c.eq_o("operator()", cat(ix.n, " distinct offsets"), cat(x.span, " distinct offsets")); }
+    if (o.has_stride) { c.eq_o("stride(r)", show(std::vector<ll>(o.stride, o.stride + R)), show(x.strides)); }
+    if (o.has_strides_array) { c.eq_o("strides()", show(std::vector<ll>(o.strides_array, o.strides_array + R)), show(x.strides)); }
+    c.eq_o("is_unique()", o.is_unique, 1);
+    c.eq_o("is_strided()", o.is_strided, 1);
+    c.eq_o("is_always_unique()", o.always_unique, 1);
+    c.eq_o("is_always_strided()", o.always_strided, 1);
+    if (o.is_exhaustive != -1) { c.eq_o("is_exhaustive()", o.is_exhaustive, 1); }
+    if (o.always_exhaustive != -1) { c.eq_o("is_always_exhaustive()", o.always_exhaustive, x.always_exhaustive); }
+    if (o.eq_same != -1) { c.eq_o("operator==", cat("equal to a copy: ", o.eq_same), cat("equal to a copy: ", 1)); }
+    if (o.eq_dext != -1) { c.eq_o("operator==", cat("equal to the equivalent mapping: ", o.eq_dext), cat("equal to the equivalent mapping: ", 1)); }
     c.r.outcome(mc::hash_str(cat(show(x.ext), show(x.strides), show(o.off))));
 }
 
@@ -191,8 +189,7 @@ void run_map(Ctx& c, MapFn fn, ll const* a, ll const* s, Indices const& ix, Expe
     if (t == mc::Trap::none) {
         verify_map(c, o, ix, x);
     } else {
-        c.kase += cat(" [during ", o.phase, "]");
-        c.trap(t);
+        c.trap_o(t, o.phase);
     }
     c.san_check();
 }
@@ -408,7 +405,8 @@ void run_layout_case(Ctx& c, TypeInfo const& ti, LayoutFns const& f, Limits lim,
         auto const e   = full_extents(st, dv);
         auto const ix  = make_indices(e);
         bool const has_zero = std::find(e.begin(), e.end(), 0) != e.end();
-        std::string const zc = cat(pc, has_zero ? "+zero_extent" : "");
+        std::string const zc = R == 0 ? "rank0" : (has_zero ? "zero_extent" : "general");
+        c.ocls               = zc;
         ll const prod        = product(e);
         bool const fits      = static_cast<ull>(prod) <= lim.index_max && static_cast<ull>(prod) <= lim.other_max;
         if (!fits) {
@@ -425,6 +423,7 @@ void run_layout_case(Ctx& c, TypeInfo const& ti, LayoutFns const& f, Limits lim,
             x.exhaustive        = true;
             x.always_exhaustive = 1;
             std::string const ln = names[side];
+            c.base               = cat(ln, "::mapping");
             c.at(cat(ln, "::mapping::mapping(extents)"), zc, cat(ln, "::mapping<", en, ">(extents", show(dv), "), indices as ", ti.index));
             run_map(c, fns[0], dv.data(), nullptr, ix, x);
             c.at(cat(ln, "::mapping::mapping(extents)"), zc, cat(ln, "::mapping<", en, ">(extents", show(dv), "), indices as other integer type"));
@@ -451,7 +450,7 @@ void run_layout_case(Ctx& c, TypeInfo const& ti, LayoutFns const& f, Limits lim,
                 xd.span               = product(xd.ext);
                 auto const ixd        = make_indices(xd.ext);
                 bool const dz         = std::find(xd.ext.begin(), xd.ext.end(), 0) != xd.ext.end();
-                c.at(cat(ln, "::mapping::mapping()"), cat(pc, dz ? "+zero_extent" : ""), cat(ln, "::mapping<", en, ">()"));
+                c.at(cat(ln, "::mapping::mapping()"), R == 0 ? "rank0" : (dz ? "zero_extent" : "general"), cat(ln, "::mapping<", en, ">()"));
                 run_map(c, fns[2], nullptr, nullptr, ixd, xd);
             }
         }
@@ -469,6 +468,7 @@ void run_layout_case(Ctx& c, TypeInfo const& ti, LayoutFns const& f, Limits lim,
                     ++c.skipped;
                     continue;
                 }
+                c.base              = "layout_stride::mapping";
                 bool const rowmajor = (s == strides_right(e)), colmajor = (s == strides_left(e));
                 std::string const sc = cat(rowmajor ? "row_major" : (colmajor ? "column_major" : "padded_or_permuted"), "+", zc);
                 char const* const how[5] = {"etl::array<index_type>", "etl::array<other integer>", "etl::span<index_type>", "etl::span<other integer>", "copy/assignment of"};
@@ -488,7 +488,8 @@ void run_layout_case(Ctx& c, TypeInfo const& ti, LayoutFns const& f, Limits lim,
                 x.strides    = over == 0 ? strides_right(e) : strides_left(e);
                 x.span       = prod;
                 x.exhaustive = true;
-                c.at(cat("layout_transpose<", names[over], ">::mapping"), zc,
+                c.base = cat("layout_transpose<", names[over], ">::mapping");
+                c.at(cat("layout_transpose<", names[over], ">::mapping::mapping(nested_mapping)"), zc,
                     cat("layout_transpose<", names[over], ">::mapping<", en, ">(", names[over], "::mapping(transposed extents of ", show(e), "))"));
                 run_map(c, f.transpose[over], dv.data(), nullptr, ix, x);
                 c.nontrivial += (ix.n > 1);
